@@ -411,6 +411,13 @@ func export(v goja.Value) (x interface{}, err error) {
 		if r := recover(); r != nil {
 			if ie, is := r.(*goja.InterruptedError); is {
 				err = ie
+			} else if e, is := r.(error); is {
+				// The text of a thrown value is computed by
+				// script code (its toString), which can be
+				// interrupted in turn: ask for the text
+				// directly rather than through fmt, which
+				// would swallow that interruption.
+				err = plainError(e)
 			} else {
 				err = fmt.Errorf("%v", r)
 			}
